@@ -668,9 +668,11 @@ func (f Function) lambdaPrint(ps *ast.PrintState, out *strings.Builder) string {
 	needBraces := len(f.Body.Statements) != 1 ||
 		f.Body.Statements[0].Value().Type() == token.LBRACE ||
 		f.Body.Statements[0].Value().Type() == token.LAMBDA
-	if infix, ok := f.Body.Statements[0].(*ast.InfixExpression); ok && !needBraces {
-		// => binds tighter than && || : = so x=>a&&b would read back as (x=>a)&&b.
-		needBraces = ast.Precedences[infix.Type()] < ast.LAMBDA
+	if !needBraces {
+		if infix, ok := f.Body.Statements[0].(*ast.InfixExpression); ok {
+			// => binds tighter than && || : = so x=>a&&b would read back as (x=>a)&&b.
+			needBraces = ast.Precedences[infix.Type()] < ast.LAMBDA
+		}
 	}
 	if needBraces {
 		out.WriteString("{")
